@@ -234,6 +234,11 @@ def monitor_c13(script):
             if any(g for g in hh):
                 hits.append(("header-handler-before-verify",
                              f"`{short}`: the alternate header handler processed headers {[g for g in hh if g][0][:4]} of a peer that was not (and never became) verified"))
+        if v and not verified:
+            good = [x for x in fx if x.startswith("VH:") and int(x[3:]) >> 24 == GOOD]
+            if not good or not hs:
+                hits.append(("verified-without-proof",
+                             f"`{short}` made the node verified although VerifyHeader accepted nothing (spy calls {fx[:3]}, handshake={hs})"))
         if verify_only and v and not closed and raw != "dead":
             hits.append(("verify-only-stays-connected", f"verify-only node still connected after `{short}` although verification succeeded"))
         verified = v
